@@ -465,6 +465,55 @@ def inplace_renaming(R):
     R.cov['inplace_renaming'] = {'differences': nb}
 
 
+QUOTED_NAMES = [(' x', 'x '), ('x', ' x'), ('x ', 'x'), (' x y ', 'x y'), ('\tx', 'x'), ('x\t', ' x'), ('x-1', 'x-2'), ('x.y', 'x,y'), ('#x', 'x?'),
+                ('\u00e9', 'e'), ('1x', '2x'), ('  ', ' '), ('x  y', 'x y'), ('x:=1', 'x:= 1'), ('x_\u03b1', 'x_\u03b2')]
+
+
+def text_with_names(f, logic, rng, sigma):
+    """hand-written concrete syntax of f with every atom a spelled as sigma[a] between double quotes"""
+    ph = {a: 'zz%dzz' % i for i, a in enumerate(sorted(sigma))}
+    t = hand_text(rename_atoms(f, ph), logic, rng)
+    for a, h in ph.items():
+        t = re.sub(r'"?\b%s\b"?' % h, lambda m, a=a: '"%s"' % sigma[a], t)
+    return t
+
+
+def text_renaming(R):
+    """atoms renamed consistently in K and in a formula given as TEXT: names that are not identifiers (leading / trailing / inner blanks,
+    tabs, punctuation, digits first, non-ASCII letters; two atoms whose names differ only in blanks) are written between double quotes.
+    The answers for (K, f) as object, (K, text of f), (K renamed, f renamed as object) and (K renamed, text of f renamed) must all be the
+    same set.  Model-free (the theorem C06_rename_atoms is about any injective renaming)."""
+    rng = random.Random(R.seed + 616)
+    nb = 0
+    hist = {}
+    for _ in range(1200 if R.thorough else 120):
+        aps = ('p', 'q')
+        kd = rand_kripke(rng, rng.randint(1, 4), aps)
+        names = rng.choice(QUOTED_NAMES)
+        sigma = dict(zip(aps, names if rng.random() < 0.5 else names[::-1]))
+        kd2 = rename_atoms_kd(kd, sigma)
+        for lg, f in gen_formulas(rng, aps):
+            f = flat1(f)
+            try:
+                t1 = hand_text(f, lg, rng)
+                t2 = text_with_names(f, lg, rng, sigma)
+            except ValueError:
+                continue
+            R.evaluations += 1
+            ans = [impl_mc(lg, kd_py(kd), f), impl_mc(lg, kd_py(kd), t1, as_text=True),
+                   impl_mc(lg, kd_py(kd2), rename_formula(f, sigma)), impl_mc(lg, kd_py(kd2), t2, as_text=True)]
+            hist[ans[0][0]] = hist.get(ans[0][0], 0) + 1
+            if any(tuple(a) != tuple(ans[0]) for a in ans):
+                nb += 1
+                if nb <= 5:
+                    R.violation('%s.modelcheck: the answer changes when the atoms are renamed consistently in K and in the formula text (%r)' % (lg, t2),
+                                {'stream': 'text renaming', 'logic': lg, 'kripke': kd_json(kd), 'formula': f, 'formula_str': fstr(f), 'sigma': sigma,
+                                 'text': t1, 'text_renamed': t2, 'answers[object, text, renamed object, renamed text]': ans})
+            elif ans[0][0] == 'ok' and 0 < len(ans[0][1]) < len(kd['S']):
+                R.nontriv(('text-renaming', json.dumps(kd_json(kd), sort_keys=True), lg, f, json.dumps(sigma)))
+    R.cov['text_renaming'] = {'differences': nb, 'answers': hist}
+
+
 def run(R):
     R.rule = ('(K, f) with K random (2..6 states, atoms {p,q} or {p,q,r}) or a 2-state structure and one formula per logic (CTL state formula depth <= 3, '
               'A g with g of depth 2-3 and <= 4 temporal operators, CTL* state formula depth <= 3 with nested quantifiers), each with a temporal operator. '
@@ -478,9 +527,10 @@ def run(R):
               'fresh interpreters under k PYTHONHASHSEEDs (3 quick / 16 thorough) with str/tuple/int states, multi-character atoms, set containers. '
               'Compared: every variant = base answer under the correspondence (implementation alone), every variant = proved model on that very '
               'presentation, compute_SCCs / reachable sets as sets of sets. non-trivial = answer neither empty nor all states and at least one variant '
-              'whose observed iteration orders (states, successor sets, label sets) differ from the base; distinct by (K, logic, f)')
+              'whose observed iteration orders (states, successor sets, label sets) differ from the base; distinct by (K, logic, f) TEXT RENAMING (model-free): atoms renamed to names that need double quotes in the concrete syntax (leading / trailing / inner blanks, tabs, punctuation, digit first, non-ASCII; pairs that differ only in blanks) consistently in K and in the formula TEXT: object, text, renamed object and renamed text must give one answer.')
     fair_atom_renaming(R)
     inplace_renaming(R)
+    text_renaming(R)
     rng = R.rng
     th = R.thorough
     base = gen_base(R, 5000 if th else 500)
@@ -702,6 +752,20 @@ def replay(R, data):
         print('before:', a1, ' renamed in place:', a2, ' renamed back:', a3)
         if not (a1 == a2 == a3):
             R.violation('replayed: the answer changes under an in-place renaming of the atoms', d)
+        return
+    if data['data'].get('stream') == 'text renaming':
+        d = data['data']
+        kd = kd_from_json(d['kripke'])
+        f = detuple(d['formula'])
+        sigma = d['sigma']
+        kd2 = rename_atoms_kd(kd, sigma)
+        lg = d['logic']
+        ans = [impl_mc(lg, kd_py(kd), f), impl_mc(lg, kd_py(kd), d['text'], as_text=True),
+               impl_mc(lg, kd_py(kd2), rename_formula(f, sigma)), impl_mc(lg, kd_py(kd2), d['text_renamed'], as_text=True)]
+        for w, a in zip(['object', 'text %r' % d['text'], 'renamed object', 'renamed text %r' % d['text_renamed']], ans):
+            print('%-40s %s' % (w, a))
+        if any(tuple(a) != tuple(ans[0]) for a in ans):
+            R.violation('replayed: the answer changes under a consistent renaming of the atoms (text channel)', d)
         return
     if data['data'].get('stream') == 'atom renaming with fairness':
         import mccheck
